@@ -6,6 +6,7 @@ import (
 	"fmt"
 	"io"
 	"net"
+	"strings"
 	"sync"
 	"time"
 
@@ -286,6 +287,21 @@ func runC07(c *core.Ctx) {
 				}
 				c07Unsupported(c, id, mode, shape, bad)
 			}
+		}
+	}
+	// a built-in handler raises during the active event: the channel holder refuses a channel id it already holds
+	hi := 0
+	for _, mode := range []mon.Mode{mon.Sync, mon.Blocking, mon.NonBlock} {
+		for _, swallow := range []bool{false, true} {
+			hi++
+			if !c.Mine(hi) {
+				continue
+			}
+			id := fmt.Sprintf("holder-duplicate-id/%s/sw%v", mode, swallow)
+			if !c.Case(id) {
+				continue
+			}
+			c07HolderDup(c, id, mode, swallow)
 		}
 	}
 	// transport faults
@@ -768,6 +784,10 @@ func c07Fault(c *core.Ctx, id string, mode mon.Mode, op string, k, ek int, swall
 				case <-time.After(5 * time.Second):
 					if mon.ParkedIn("headHandler.HandleWrite", "sync.Mutex.Lock", "semacquire") > 0 {
 						viol("following-write-blocked-forever", "after a transport write failure that a handler consumed, the next Channel.Write never returned (blocked inside the head handler)")
+					} else if mode != mon.Sync && !rig.T.IsClosed() && !rig.Ch.IsActive() && mon.ParkedIn("(*channel).writeOnce", "sleep") > 0 && mon.ParkedIn("(*channel).Close", "sleep") > 0 {
+						// the failed sender sits inside Close polling for the sender flag it still holds itself: nothing can ever
+						// clear it, so the transport is never closed and the channel stays 'closing' forever
+						viol("sender-failure-did-not-close", "the background sender's transport call failed and the sender is parked inside Close waiting for its own sender flag: the transport is never closed, inactive never delivered, and the next Channel.Write blocks forever")
 					} else {
 						c.Inconclusive(id, "watchdog: Channel.Write did not return")
 					}
@@ -886,6 +906,123 @@ func c07Fault(c *core.Ctx, id string, mode mon.Mode, op string, k, ek int, swall
 }
 
 var _ net.Error = tmoErr{}
+
+// c07HolderDup: channels A (id 7), B (id 7 again) and C (id 8) share one ChannelHolder. B's active event panics inside the
+// holder ("duplicate channel"): the panic must be routed as an exception on B, close B when nobody consumes it (or leave B
+// usable when consumed), must not wedge B's read goroutine, and must leave A, C and the holder working.
+func c07HolderDup(c *core.Ctx, id string, mode mon.Mode, swallow bool) {
+	holder := netty.NewChannelHolder(4)
+	type built struct {
+		rig *mon.Rig
+		exc *excProbe
+		in  *inactProbe
+	}
+	build := func(chID int64) *built {
+		b := &built{exc: &excProbe{name: "only", swallow: swallow}, in: &inactProbe{}}
+		done := make(chan struct{})
+		go func() {
+			defer close(done)
+			b.rig = mon.NewRig(mon.RigOpts{Mode: mode, Queue: 4, ID: chID, QuietTail: true, Handlers: []netty.Handler{holder, b.exc, b.in}})
+		}()
+		select {
+		case <-done:
+			return b
+		case <-time.After(10 * time.Second):
+			return nil
+		}
+	}
+	c.Count("holder_duplicate_cells", 1)
+	c.Sig("holder-dup", mode, swallow)
+	viol := func(key, what string) {
+		c.Violation("C07:"+key, id, fmt.Sprintf("%s [mode=%s exception handler swallows=%v]", what, mode, swallow), nil)
+	}
+	wedged := func(who string) bool {
+		if mon.ParkedIn("(*channelHolder)", "sync.Mutex.Lock", "sync.RWMutex.Lock", "sync.RWMutex.RLock", "semacquire") > 0 {
+			viol("active-panic-in-holder-wedges-channels", "after the channel holder panicked in an active event (duplicate channel id) "+who+" never finished its active event: a goroutine is parked on the holder's lock, which the panic left locked")
+			return true
+		}
+		return false
+	}
+	a := build(7)
+	if a == nil {
+		c.Inconclusive(id, "watchdog: first channel did not become active")
+		return
+	}
+	defer a.rig.Dispose()
+	b := build(7)
+	if b == nil {
+		if !wedged("the refused channel") {
+			c.Inconclusive(id, "watchdog: second channel did not finish its active event")
+		}
+		return
+	}
+	defer b.rig.Dispose()
+	b.exc.mu.Lock()
+	seen := append([]error(nil), b.exc.seen...)
+	b.exc.mu.Unlock()
+	if len(seen) != 1 || !strings.Contains(seen[0].Error(), "duplicate channel") {
+		viol("panic-not-routed-as-exception", fmt.Sprintf("the holder's panic during the active event was delivered %d times as an exception (%v)", len(seen), seen))
+		return
+	}
+	if !swallow {
+		if !b.rig.Ex.WaitOutstanding(0, 5*time.Second) || !b.rig.T.IsClosed() {
+			if !wedged("the refused channel") {
+				viol("unconsumed-exception-did-not-close", "nobody consumed the exception of the holder's panic but the channel was not closed / its read loop did not end")
+			}
+			return
+		}
+		b.in.mu.Lock()
+		inact := append([]error(nil), b.in.errs...)
+		b.in.mu.Unlock()
+		if len(inact) != 1 || inact[0] != seen[0] {
+			viol("unconsumed-exception-wrong-close-error", fmt.Sprintf("the channel was closed with %v instead of the exception %v", inact, seen[0]))
+		}
+	} else {
+		if !b.rig.Ch.IsActive() {
+			viol("consumed-exception-closed-channel", "the exception of the holder's panic was consumed but the channel was closed")
+			return
+		}
+		if st := c07WriteWD(b.rig.Ch, []byte("after-dup")); st != "" {
+			viol("following-write-blocked-forever", "after the consumed exception of the holder's panic a Channel.Write never returned")
+			return
+		}
+		b.rig.Ex.WaitOutstanding(1, 5*time.Second)
+		if !containsBytes(b.rig.T.Wire(), []byte("after-dup")) {
+			viol("channel-unusable-after-consumed-panic", "after the consumed exception of the holder's panic a following write never reached the transport")
+		}
+	}
+	// the other channels of the holder are not affected
+	cc := build(8)
+	if cc == nil {
+		if !wedged("a later channel of the same holder") {
+			c.Inconclusive(id, "watchdog: third channel did not become active")
+		}
+		return
+	}
+	defer cc.rig.Dispose()
+	if st := c07WriteWD(a.rig.Ch, []byte("a-still-works")); st != "" {
+		viol("following-write-blocked-forever", "after the holder's panic on another channel a Channel.Write on the first channel never returned")
+		return
+	}
+	a.rig.Ex.WaitOutstanding(1, 5*time.Second)
+	if !containsBytes(a.rig.T.Wire(), []byte("a-still-works")) {
+		viol("channel-unusable-after-consumed-panic", "after the holder's panic on another channel a write on the first channel never reached the transport")
+	}
+	closed := make(chan struct{})
+	go func() { defer close(closed); holder.CloseAll(nil) }()
+	select {
+	case <-closed:
+	case <-time.After(10 * time.Second):
+		if !wedged("CloseAll") {
+			c.Inconclusive(id, "watchdog: CloseAll did not return")
+		}
+		return
+	}
+	if !cc.rig.T.IsClosed() {
+		viol("holder-close-all-skipped-channel", "CloseAll returned but a registered channel's transport is still open")
+	}
+	c.Count("holder_duplicate_checked", 1)
+}
 
 func c07Unsupported(c *core.Ctx, id string, mode mon.Mode, shape string, bad netty.Message) {
 	cell := c07Cell{n: 1, pos: 1, kind: "none", entry: "Channel.Write", val: 0, shape: shape, state: "open", mode: mode}
